@@ -29,6 +29,7 @@ def config(tier):
         "sim": {"num": 300 if q else 5000, "depth": 8},
         "emit": [{"name": "conn", "module": "MCApi", "cfg": "MCApiConn", "workers": 8,
                   "env": {} if q else {"CONN_MAXEDGES": "2"}},
+                 {"name": "comp", "module": "MCApi", "cfg": "MCApiComp", "workers": 8, "env": {}},
                  {"name": "add", "module": "MCApi", "cfg": "MCApiAdd", "workers": 8,
                   "env": {"CGV_EMIT_K": "25" if q else "3"}}],
     }
@@ -234,7 +235,7 @@ def norm_compact(s):
 
 
 def cases(ctx):
-    for name in ("conn", "add"):
+    for name in ("conn", "add", "comp"):
         for k, t in enumerate(ctx.emitted(name)):
             yield {"op": "transition", "t": t, "k": k, "src": "TLCSTEP"}
     kids = children()
